@@ -89,6 +89,8 @@ def conc_suite(profile, n_quick, n_thorough, sched_quick, sched_thorough, focus,
                 why = None
                 if dm["mismatch"]:
                     why = dm["mismatch"][0]
+                elif focus == "C11" and dm["c11bad"] and not any(c in ("ifE", "ifO") for p in progs for c in p):
+                    why = dm["c11bad"][0]
                 else:
                     why = suite_conc.compare(di, dm)
                 if why:
@@ -117,4 +119,28 @@ register(
                             "processors; each run under a seeded random schedule of the baton scheduler (every micro-step of Conc/Queue.lean is a scheduling point, "
                             "spurious wake-ups and time-outs are scheduler choices with probability 0 - 8%); distinct = distinct global step order; "
                             "non-trivial = at least 3 thread switches and 8 steps")],
+)
+
+
+register(
+    "C06",
+    lean_modules=["EventppVerif.Properties.C06"],
+    suites=[conc_suite("conserve", 80, 800, 10, 60, "C06",
+                       rule="random programs of 2-4 threads mixing enqueue with process / processOne / processIf (even / odd ids declined) / takeEvent / peekEvent / clearEvents / emptyQueue, "
+                            "each run under seeded random schedules of the baton scheduler, plus a directed family of the smallest producer/consumer programs with many schedules; "
+                            "distinct = distinct global step order; non-trivial = at least 3 thread switches and 8 steps")],
+)
+
+import reg_q  # noqa: E402
+
+register(
+    "C11",
+    lean_modules=["EventppVerif.Properties.C11", "EventppVerif.Properties.C11s"],
+    fragments=["QueueFrag"],
+    suites=[conc_suite("empty", 80, 800, 10, 60, "C11",
+                       rule="random programs of 2-4 threads with emptyQueue observers next to enqueuers and threads running process / processOne / takeEvent / clearEvents (no processIf: the property excludes it), "
+                            "under seeded random schedules; the driver evaluates along the implementation's own step order whether an emptyQueue() that returns true finds every event enqueued before the call consumed; "
+                            "plus the single-threaded histories of C05 in which listeners call emptyQueue (seq_q); distinct = distinct global step order / canonical output"),
+            reg_q.q_suite("queue", 150, 4000, [reg_q.V("single", 0, 0, 0, 0)], [reg_q.V("single", 0, 0, 0, 0), reg_q.V("multi", 1, 1, 1, 0)],
+                          rule="", nontrivial=reg_q.nt_queue)],
 )
